@@ -40,7 +40,7 @@ Definition extract_cmp (exacts : list bool) (k : Z) (scale : Qc)
 Definition entry_cmp (m : option Qc) (o : option Qc) : bool :=
   match m, o with
   | None, None => true
-  | Some q, Some f => qclose 2 1 q f
+  | Some q, Some f => qclose 16 1 q f
   | _, _ => false
   end.
 Definition row_cmp (eps t : Qc) (cells : list cell) (m : module) (row : list (option Qc)) : bool :=
